@@ -117,10 +117,16 @@ func c06Unit(layout string) int {
 	if layout == "2006-01-02 15:04:05.000000" {
 		return 86400000000
 	}
+	if layout == "2006-01-02 15:04:05.000000000" {
+		return 86400000000000
+	}
 	return 1440
 }
 
 func c06Inst(day, v int, layout string) string {
+	if layout == "2006-01-02 15:04:05.000000000" {
+		return strings.TrimSuffix(vFmtDay(day, layout), "00:00:00.000000000") + fmt.Sprintf("%02d:%02d:%02d.%09d", v/3600000000000, v/60000000000%60, v/1000000000%60, v%1000000000)
+	}
 	if layout == "2006-01-02 15:04:05.000000" {
 		return strings.TrimSuffix(vFmtDay(day, layout), "00:00:00.000000") + fmt.Sprintf("%02d:%02d:%02d.%06d", v/3600000000, v/60000000%60, v/1000000%60, v%1000000)
 	}
@@ -138,7 +144,7 @@ func c06SortedLines(s string) string {
 
 func checkC06(c c06Case, ctx *vCtx) *vFailure {
 	if c.Clock {
-		if (c.Layout != "2006-01-02 15:04" && c.Layout != "2006-01-02 15:04:05.000" && c.Layout != "2006-01-02 15:04:05.000000" && !c06Zoned(c)) || len(c.Mins) != len(c.S.Log.Recs) || (c06Zoned(c) && len(c.Offs) != len(c.Mins)) {
+		if (c.Layout != "2006-01-02 15:04" && c.Layout != "2006-01-02 15:04:05.000" && c.Layout != "2006-01-02 15:04:05.000000" && c.Layout != "2006-01-02 15:04:05.000000000" && !c06Zoned(c)) || len(c.Mins) != len(c.S.Log.Recs) || (c06Zoned(c) && len(c.Offs) != len(c.Mins)) {
 			vFault("C06 clock mode: layout %q, %d records, %d minutes", c.Layout, len(c.S.Log.Recs), len(c.Mins))
 		}
 		recs := append([]vRec{}, c.S.Log.Recs...)
@@ -450,8 +456,8 @@ func genC06Bound(t *rapid.T, base int, today int, label string) c06Bound {
 }
 
 func genC06(t *rapid.T) c06Case {
-	layout := []string{"", "", "2006-01-02", "02.01.2006", "2006/02/01", "06/01/02", "2006/1/2", "January 2, 2006", "Mon 2 Jan 2006", "20060102", "2006-01-02T15:04", "2006-01-02T15:04:05Z07:00", "Jan 2 2006 3:04PM"}[rapid.IntRange(0, 12).Draw(t, "layout")]
-	c06NoFar = layout == "06/01/02"
+	layout := []string{"", "", "2006-01-02", "02.01.2006", "2006/02/01", "06/01/02", "2006/1/2", "January 2, 2006", "Mon 2 Jan 2006", "20060102", "2006-01-02T15:04", "2006-01-02T15:04:05Z07:00", "Jan 2 2006 3:04PM", "01/02"}[rapid.IntRange(0, 13).Draw(t, "layout")]
+	c06NoFar = layout == "06/01/02" || layout == "01/02"
 	defer func() { c06NoFar = false }()
 	// windows incl. month, year and leap-day boundaries and daylight-saving changes (2021-03-14 Havana/US, 2021-03-28 EU,
 	// 2021-09-05 Santiago, 2021-11-07 US)
@@ -461,7 +467,10 @@ func genC06(t *rapid.T) c06Case {
 	bases := []int{c06Base, 56, 362, 1150, 70, 84, 245, 308, -3, 1458, -18631, -44197, 28852,
 		vDaysFromCivil(1677, 9, 19), vDaysFromCivil(2262, 4, 9), vDaysFromCivil(1, 2, 15), vDaysFromCivil(1000, 2, 26), vDaysFromCivil(9999, 12, 20), vDaysFromCivil(2038, 1, 17)}
 	base := bases[rapid.IntRange(0, len(bases)-1).Draw(t, "base")]
-	if c06NoFar {
+	if layout == "01/02" {
+		// all days of the case in one year, away from the end of February (the year such values get has a leap day)
+		base = []int{c06Base, 100, 200, 300}[rapid.IntRange(0, 3).Draw(t, "basenoyear")]
+	} else if c06NoFar {
 		// the first days of the first year the layout can write: the keywords reach back into a year it cannot write
 		// ... and the turn of the century inside the range of the layout (99/12/31 is followed by 00/01/01)
 		base = []int{vDaysFromCivil(1969, 1, 1), vDaysFromCivil(1969, 1, 1), vDaysFromCivil(2068, 12, 20), c06Base, vDaysFromCivil(1999, 12, 28), vDaysFromCivil(1999, 12, 30), vDaysFromCivil(2000, 2, 26)}[rapid.IntRange(0, 6).Draw(t, "base2y")]
@@ -493,14 +502,27 @@ func genC06(t *rapid.T) c06Case {
 	var clockEdges []int
 	if rapid.IntRange(0, 3).Draw(t, "clock") == 0 {
 		// a date format with a clock component: the period is an interval of instants (minutes, or milliseconds)
-		c.Clock, c.Layout = true, []string{"2006-01-02 15:04", "2006-01-02 15:04:05.000", c06ZoneLayout, "2006-01-02 15:04:05.000000"}[rapid.IntRange(0, 3).Draw(t, "clocklayout")]
+		c.Clock, c.Layout = true, []string{"2006-01-02 15:04", "2006-01-02 15:04:05.000", c06ZoneLayout, "2006-01-02 15:04:05.000000", "2006-01-02 15:04:05.000000000"}[rapid.IntRange(0, 4).Draw(t, "clocklayout")]
 		unit := c06Unit(c.Layout)
+		if c.Layout == "2006-01-02 15:04:05.000000000" {
+			// nanoseconds: the window stays near the present (the model counts nanoseconds in 64 bits)
+			delta := c06Base - base
+			for i := range c.S.Days {
+				c.S.Days[i] += delta
+			}
+			today, base = today+delta, c06Base
+			c.Today = today
+			c06NoFar = true
+		}
 		edges := []int{0, 1, 719, 720, 1438, 1439}
 		if unit > 1440 {
 			edges = []int{0, 1, 999, 1000, 43200000, 86399000, 86399001, 86399250, 86399999}
 		}
 		if unit > 86400000 {
 			edges = []int{0, 1, 999, 1000, 43200000000, 86399000000, 86399000001, 86399999000, 86399999001, 86399999500, 86399999999}
+		}
+		if unit > 86400000000 {
+			edges = []int{0, 1, 499, 500, 999, 1000, 1001, 1999, 43200000000000, 43200000000001, 43200000000999, 86399999999000, 86399999999001, 86399999999500, 86399999999999}
 		}
 		clockEdges = edges
 		instant := func(label string) int {
@@ -560,6 +582,13 @@ func genC06(t *rapid.T) c06Case {
 		if bs[k].Kind == "date" {
 			j := rapid.IntRange(0, len(c.S.Log.Recs)-1).Draw(t, "snapj")
 			bs[k].Day, c.BMins[k] = c.S.Days[j], c.Mins[j]
+			if c.Layout == "2006-01-02 15:04:05.000000000" && rapid.Bool().Draw(t, "snapnearns") {
+				// next to the record, inside the same microsecond or the neighbouring one
+				d := []int{-1, 1, -400, 400, -999, 999, -1000, 1000}[rapid.IntRange(0, 7).Draw(t, "snapdeltans")]
+				if v := c.BMins[k] + d; v >= 0 && v < 86400000000000 {
+					c.BMins[k] = v
+				}
+			}
 			if c.Layout == "2006-01-02 15:04:05.000" && rapid.Bool().Draw(t, "snapnear") {
 				// not on the record but next to it, inside the same second or the neighbouring one
 				d := []int{-1, 1, -400, 400, -999, 999, -1000, 1000}[rapid.IntRange(0, 7).Draw(t, "snapdelta")]
